@@ -121,7 +121,11 @@ CLAIMED = {
              "(`call_changes_only_addressed`). Generated callers print their variables before and after calls to callees "
              "that write or read through every parameter kind (pointer, value, slice pointer, array view, struct pointer, "
              "struct view, forwarded pointer, aliasing pointer variable): compared with the Lean interpreter and with the "
-             "static prediction; the rule table (E530, E531-E533, E513) is compared with the compiler. Partial: in the "
+             "static prediction; the rule table (E530, E531-E533, E513) is compared with the compiler; a copy matrix (every "
+             "aggregate in every copying position, index computed by a literal / variable / call) and the forwarding and address "
+             "matrices run through the compiler. `Ty.autoderef_takes_no_address` (Types/Agree.lean, model of "
+             "`can_autoderef_into`, compared with the real function on 70 000 type pairs): whatever a reference may implicitly be "
+             "read as, every pointer in the result comes from a pointer in its own type - no address is taken without `&`. Partial: in the "
              "calculus arrays/structs are single cells; element/member paths are covered by the interpreter runs only.",
         note="Trusted: Lean kernel, transcription of needs_outer_mutability (checked by the rule table), the calculus as an "
              "abstraction of the call semantics (its executable semantics is not itself compared with the compiler; the "
